@@ -46,6 +46,52 @@ def scenario_for(case, abandon_at=None, mech=None):
                           horizon=2000.0, **kw)
 
 
+# ---- scheduled stage: the consumer abandons the loop WHILE ANOTHER THREAD IS INSIDE A SEND on the same connection (the
+# write lock is then held by that thread): deterministic scheduler of C11, every thread order x every single preemption
+def _sched_scenarios():
+    from harness import wire
+    from props import racecommon as rc
+    text = rc.B(wire.TEXT, b"stop here").hex()
+    P = rc.payload_for
+    return {
+        "abandon_vs_sender": {"deflate": False, "threads": {"B": [["send_text", P("B", 0)]]},
+                              "loop": {"bytes": text, "idle_waits": 0, "react": {"text": ["abandon", "gen_close"]}},
+                              "copts": {"ping_rate": 0}},
+        "abandon_vs_large_sender_deflate": {"deflate": True, "threads": {"B": [["send_binary", rc.big_payload("B", 0, 70000)]]},
+                                            "loop": {"bytes": text, "idle_waits": 0, "react": {"text": ["abandon", "gen_close"]}},
+                                            "copts": {"ping_rate": 0}},
+        "abandon_vs_sender_and_pinger": {"deflate": False, "threads": {"B": [["send_text", P("B", 0)]], "C": [["send_ping", "C-0:ping"]]},
+                                         "loop": {"bytes": text, "idle_waits": 0, "react": {"text": ["abandon", "gen_close"]}},
+                                         "copts": {"ping_rate": 0}},
+    }
+
+
+def _sched_judge(scn, out):
+    if out.aborted:
+        return "hang", out.aborted
+    if out.leaked_threads:
+        return "harness", "threads did not unwind: %s" % out.leaked_threads
+    for name, err in out.errors.items():
+        return "escaped_exception", "thread %s: %r" % (name, err)
+    for name, st_ in out.states.items():
+        if st_ not in ("done", "parked"):
+            return "deadlock", "thread %s ended in state %s" % (name, st_)
+    for name, res in out.results.items():
+        for call, result, mro in res:
+            if result not in ("ok", "abandoned") and "WebSocketError" not in (mro or []):
+                return "send_error_not_websocket_error", "thread %s: %s raised %s" % (name, call[0], result)
+    if getattr(out, "abandoned_with", None) is None:
+        return None      # the loop ended before the consumer got the event
+    for sid, closed, shutdown, finalised, broken in out.socks:
+        if not (closed or (finalised and broken)):
+            return "socket_leaked_while_another_thread_sends", (
+                "the consumer abandoned the loop (%s) while another thread was using the connection: socket %d was "
+                "never close()d (shutdown called: %s)" % (out.abandoned_with, sid, shutdown))
+    if out.selectors_open:
+        return "selector_leaked", "selector not closed after the abandonment"
+    return None
+
+
 class C13(Prop):
     id = "C13"
     level = "fault_enumeration"
@@ -87,7 +133,39 @@ class C13(Prop):
             "companion": gen.companion(15),
         })
 
+    def enumerations(self, tier):
+        from props.c11 import C11
+        from harness.runner import Enumeration
+
+        class _Sched(C11):
+            id = "C13"
+
+            def scenarios(self_inner):
+                return _sched_scenarios()
+
+            def judge(self_inner, scn, out):
+                return _sched_judge(scn, out)
+
+            def bound2(self_inner):
+                return []
+
+            def first_use(self_inner):
+                return []
+        self._sched = _Sched()
+        inner = self._sched.enumerations(tier)[0]
+
+        def cases():
+            for c in inner.make():
+                yield dict(c, sched=True)
+        return [Enumeration("abandoned_while_another_thread_is_inside_a_send", cases, exhaustive=True)]
+
     def run_case(self, case):
+        if case.get("sched"):
+            if not hasattr(self, "_sched"):
+                self.enumerations("quick")
+            inner = dict(case)
+            inner.pop("sched")
+            return self._sched.run_case(inner)
         base = simnet.run_scenario(scenario_for(case))
         names = base.names()
         labels = set()
